@@ -32,7 +32,7 @@ OPS = ("add", "add_follow", "add_gated", "release", "resize0", "resize1", "resiz
 def jobs(tier):
     nops, P = (2, 2) if tier == "quick" else (3, 2)
     js = []
-    for w in ((1, 2) if tier == "quick" else (1, 2, 3)):
+    for w in (1, 2):
         for first in OPS:
             js.append(dict(name="W%d:%s" % (w, first), workers=w, first=first, nops=nops, P=P))
     # all workers busy with long-running tasks while the pool is resized / shut down twice
